@@ -9,7 +9,7 @@ PROPS = [json.loads(l)["id"] for l in open(os.path.join(HERE, "properties.jsonl"
 CHECKS = {
  "C01": ("model_checking",
          "bounded-exhaustive small-scope enumeration of (message type, value, construction route) states with encode/decode/re-encode edges executed on the real codec",
-         "All single-unit message types (every field kind x cardinality) with full boundary alphabets, all unordered pairs of units with reduced alphabets and a recursive type to depth 2/3, each built by 4 routes (plus fresh-instance routes for empty messages in optional/oneof/repeated/map positions and a 'lazy' route that only reads sub-messages and never assigns them back) and pushed through bytes/parse/bytes; equality, oneof selection, None-ness, nested presence and byte stability are checked on every case. Exhaustive within the stated alphabets, silent about values outside them.",
+         "All single-unit message types (every field kind x cardinality) with full boundary alphabets (incl. -0.0, non-UTC datetimes, numeric-looking string keys, lists of 130 / 17000 elements, maps of 130 entries, nesting depth 8), also declared with PEP 604 annotations, all unordered pairs of units with reduced alphabets and a recursive type to depth 2/3, each built by 4 routes (plus fresh-instance routes for empty messages in optional/oneof/repeated/map positions and a 'lazy' route that only reads sub-messages and never assigns them back) and pushed through bytes/parse/bytes; equality, oneof selection, None-ness, nested presence and byte stability are checked on every case. Exhaustive within the stated alphabets, silent about values outside them.",
          "trusts the abstract value model in vf/core/absval.py (cross-checked on every case against google.protobuf) and the value alphabets being branch-complete for the per-field interpreter",
          "DESIGN.md §4 C01"),
  "C02": ("model_checking",
@@ -29,12 +29,12 @@ CHECKS = {
          "DESIGN.md §4 C16"),
  "C08": ("model_checking",
          "exhaustive enumeration of (newer schema, value, every subset of retained fields) states and of every sequence of <=2 unknown records at every gap, each decoded/re-encoded/decoded on the real codec and by google.protobuf",
-         "Three five-field newer schemas spanning all wire types, packed, map, oneof, optional, nested and enum fields; all 32 older schemas of each; all reduced-alphabet values; plus all unknown-record sequences of length <=2 (6 field numbers x 4 wire types x payload shapes) at every gap of a known encoding. The unknown-record alphabet includes non-minimal tag/length/value encodings. Checks that known fields are undisturbed, unknown records are re-emitted byte-for-byte in order, the size-bounded load path gives the same result, and the newer reader and the reference recover the original message. Plus a field-number sweep (an unknown record of every number 1..70000 / 600000 and every 2^k boundary), nested-type evolution, and one instance decoding two inputs (24x24 pairs, parse/parse and two delimited loads) against the reference's MergeFromString.",
+         "Three five-field newer schemas spanning all wire types, packed, map, oneof, optional, nested and enum fields; all 32 older schemas of each; all reduced-alphabet values; plus all unknown-record sequences of length <=2 (6 field numbers x 4 wire types x payload shapes) at every gap of a known encoding. The unknown-record alphabet includes non-minimal tag/length/value encodings. Checks that known fields are undisturbed, unknown records are re-emitted byte-for-byte in order, the size-bounded load path gives the same result, and the newer reader and the reference recover the original message. Plus a field-number sweep (an unknown record of every number 1..70000 / 600000 and every 2^k boundary), nested-type evolution, and one instance decoding two inputs (24x24 pairs, parse/parse, two delimited loads, and decoding into a copy / deep copy without touching the original) against the reference's MergeFromString.",
          "trusts the wire model's tokenizer (validated against the reference on every case)",
          "DESIGN.md §4 C08"),
  "C10": ("fault_enumeration",
          "exhaustive enumeration of message sequences (length <=3 / <=4 over an 8-message alphabet) x reader schema x every cut point of the delimited stream x every schedule of <=2 short read() answers, replayed on the real dump/load",
-         "Every sequence is written with dump(SIZE_DELIMITED), compared with the wire model's and the reference's length-prefixed framing, read by the reference, and read back with load(SIZE_DELIMITED) at every cut point 0..len: messages wholly before the cut must be returned intact with the stream positioned at their boundary, and a load that returns must return exactly the written message. The uncut stream is also served by a reader that answers any <=2 of the multi-byte read calls short (1 byte / all but one byte): every message must still be read back.",
+         "Every sequence is written with dump(SIZE_DELIMITED), compared with the wire model's and the reference's length-prefixed framing, read by the reference, and read back with load(SIZE_DELIMITED) at every cut point 0..len: messages wholly before the cut must be returned intact with the stream positioned at their boundary, and a load that returns must return exactly the written message. The uncut stream is also served by a reader that answers any <=2 of the multi-byte read / peek calls short (1 byte / all but one byte), by real io.BufferedReader objects of buffer size 1..13, by an io.RawIOBase object and by an io.FileIO on a pipe: every message must still be read back and nothing beyond it consumed.",
          "trusts google.protobuf.proto.serialize/parse_length_prefixed as the framing reference",
          "DESIGN.md §4 C10"),
  "C17": ("fault_enumeration",
@@ -49,7 +49,7 @@ CHECKS = {
          "DESIGN.md §4 C07"),
  "C14": ("model_checking",
          "explicit-state breadth-first search to a fixpoint over the complete internal state of a real message; every observer and copy operation in every reachable state, edge invariant by differential replay",
-         "82 initial states (13 values x constructor / setattr / in-place / parse / parse-with-unknown-fields / from_dict, plus lazily built ones whose parents were only ever read) x 26 observers and copy, deepcopy, pickle, closed under composition, plus ALL observer sequences of length <=2 (3) without state merging (hidden class-level state): on every edge the observable projection (bytes, values, presence, oneof, element types) must equal that of a separate replay without the operation; copies must be equal, byte-identical and (deep copies) independent under 10 mutators.",
+         "82 initial states (13 values x constructor / setattr / in-place / parse / parse-with-unknown-fields / from_dict, plus lazily built ones whose parents were only ever read) x 26 observers and copy, deepcopy, pickle, closed under composition, plus ALL observer sequences of length <=2 (3) without state merging (hidden class-level state): on every edge the observable projection (bytes, values, presence, oneof, element types) must equal that of a separate replay without the operation; copies must be equal, byte-identical and (deep copies) independent under 12 mutators, including decoding further input into the copy.",
          "state key = full __dict__; one message class covering nested, optional, oneof, map-of-message, repeated, Timestamp, wrapper and enum fields",
          "DESIGN.md §4 C14"),
  "C15": ("model_checking",
@@ -74,7 +74,7 @@ CHECKS = {
          "DESIGN.md §4 C04"),
  "C05": ("model_checking",
          "bounded-exhaustive small-scope enumeration of (type, value) states in both directions against google.protobuf.json_format, plus lexical clauses checked by a JSON model that is validated against the reference on every case",
-         "betterproto's to_json is parsed by json_format.Parse and compared; json_format.MessageToJson - with default options and with preserving_proto_field_name, use_integers_for_enums, always_print_fields_with_no_presence - is parsed by from_json and compared (values and Python types); to_dict output is checked against the mapping's lexical rules (json names, 64-bit as strings, base64, enum names, non-finite floats, RFC 3339 / decimal seconds).",
+         "betterproto's to_json is parsed by json_format.Parse and compared; json_format.MessageToJson - with default options and with preserving_proto_field_name, use_integers_for_enums, always_print_fields_with_no_presence - is parsed by from_json and compared (values and Python types); enum fields holding a member of another enum class with the same number must print the field enum's name; to_dict output is checked against the mapping's lexical rules (json names, 64-bit as strings, base64, enum names, non-finite floats, RFC 3339 / decimal seconds).",
          "trusts google.protobuf.json_format as the reference of the canonical mapping",
          "DESIGN.md §4 C05"),
  "C06": ("model_checking",
@@ -84,7 +84,7 @@ CHECKS = {
          "DESIGN.md §4 C06"),
  "C12": ("model_checking",
          "stateless depth-first exploration of all event-loop schedules (exact-asyncio semantics: FIFO iterations; continue/yield/park at driver points; release and timer firing at iteration boundaries) of small AsyncChannel configurations on the real asyncio.Queue/Task/wait_for under a virtual loop, with iterative deviation bounding",
-         "40+ configurations (1-2 senders x 1-3 items via send / send_from / async sources, 1-3 receivers via receive(), async-for and the library's ServiceStub._send_messages, closer, unbounded and bounded buffers, every other item falsy, cancellation or timeout of one receiver at any point). The small ones are enumerated completely, the rest up to a stated number of deviations from the default schedule. Every complete execution is judged: nothing invented or duplicated, per-sender order, everything sent before close received exactly once (or obtainable by a fresh receiver after a cancellation), no stranded receiver, later sends rejected, cancellation/timeout surfacing as such, no stray exception.",
+         "40+ configurations (1-2 senders x 1-3 items via send / send_from / async sources, 1-3 receivers via receive(), async-for and the library's ServiceStub._send_messages, closer (as a task or as a plain loop callback), channel created inside or before the loop, unbounded and bounded buffers, every other item falsy, a task polling closed()/done(), cancellation or timeout of one receiver at any point). The small ones are enumerated completely, the rest up to a stated number of deviations from the default schedule. Every complete execution is judged: nothing invented or duplicated, per-sender order, everything sent before close received exactly once (or obtainable by a fresh receiver after a cancellation), no stranded receiver, later sends rejected, cancellation/timeout surfacing as such, no stray exception.",
          "schedules a real FIFO asyncio loop cannot produce are excluded by construction; OS threads are out of scope",
          "DESIGN.md §4 C12"),
  "C03": ("translation_validation",
@@ -104,7 +104,7 @@ CHECKS = {
          "DESIGN.md §4 C18"),
  "C11": ("exploration",
          "exhaustive enumeration of (method, request tuple, response-stream length, source kind, handler outcome) and of all 64 stub-level/call-level timeout/deadline/metadata combinations, each executed as a real rpc through the generated stub, grpclib's in-process channel and the generated server base",
-         "Services generated by the real plugin cover all four cardinalities, re-cased method names, cross-package, nested and well-known request/response types and a second service sharing a method name. For every case exactly one handler - the right one - must run with requests equal and in order, the caller must receive the responses equal and in order, a method that is not overridden must answer UNIMPLEMENTED, a handler's GRPCError status and message must reach the caller, and the server must observe exactly the metadata pairs (mapping, pairs, pairs with a repeated key and a -bin value) and the deadline the precedence rule (call-level over stub-level) predicts.",
+         "Services generated by the real plugin cover all four cardinalities, re-cased method names, cross-package, nested and well-known request/response types and a second service sharing a method name. For every case exactly one handler - the right one - must run with requests equal and in order, the caller must receive the responses equal and in order, a method that is not overridden must answer UNIMPLEMENTED, a handler's GRPCError status and message must reach the caller, three calls on ONE stub 3000 s apart (fake clock inside grpclib.metadata) must each get the full stub-level timeout and the shrinking stub-level deadline, of two calls in flight on one stub the survivor of a cancellation must finish intact, and the server must observe exactly the metadata pairs (mapping, pairs, pairs with a repeated key and a -bin value) and the deadline the precedence rule (call-level over stub-level) predicts.",
          "natural asyncio schedule; deadline observed as time remaining with a 20 s tolerance (configured deadlines 50 s .. 10000 s)",
          "DESIGN.md §4 C11"),
 }
